@@ -1,96 +1,71 @@
-"""C06 / C15: the guards of replicat/repository.py that `Repo.lean` / `Access.lean` mirror, read from the AST.
+"""C06 / C15: the guards of replicat/repository.py that `Repo.lean` / `Access.lean` mirror.
 
 Each recognised shape is emitted as a Bool in `Replicat.Gen`; the property theorems do NOT depend on these flags (a harmless
 rewrite must not break a proof) — an unrecognised shape is recorded in the extraction notes (`access.*` / `select.*`) and in the
 evidence, and makes the C06 / C15 checks run twice as many correspondence worlds in that run (DESIGN.md §3.1: a changed shape is
 not a broken tie, it raises the number of cases).  Normalised-AST fingerprints of every modelled function go into the evidence.
+
+The shapes are read off the control-flow paths of the public commands (tools/symflow.py, tools/replicat_facts.py): what ends up in
+`self.props` after `unlock`, which comparison precedes the download of a snapshot / the scheduling of a chunk for deletion, whether a
+refusal can follow a deletion, which key the listings are sorted by.  Names of locals and private helpers, branch orientation, early
+returns, nested vs. combined conditions do not matter.
 """
 import ast
+import sys
+from pathlib import Path
 
-
-def _norm(ctx, node):
-    return ctx.unparse(node).replace('(', '').replace(')', '').replace(' ', '')
+sys.path.insert(0, str(Path(__file__).resolve().parent.parent))
+import replicat_facts as rf  # noqa: E402
+import symflow_fmt as symflow  # noqa: E402
 
 
 def section(ctx):
-    src = (ctx.REPO / 'replicat' / 'repository.py').read_text()
-    tree = ast.parse(src)
-    flags = {}
+    an = symflow.analyzer_for(ctx.REPO)
+    tree = an.mods['repository'].tree
 
     def flag(name, ok, why):
-        flags[name] = ok
         ctx.emit(f'def {name} : Bool := {"true" if ok else "false"}')
         if not ok:
             ctx.notes[('select.' if name.startswith(('restore', 'listing')) else 'access.') + name] = why
+
+    def run(fn, default):
+        try:
+            return fn(an)
+        except Exception as e:  # noqa: BLE001
+            return dict(default, why=f'analysis failed: {e!r}')
 
     for meth in ('_instantiate_key', '_make_key', '_add_key', 'add_key', 'unlock', '_decrypt_snapshot_body', '_download_snapshot_threadsafe',
                  '_load_snapshots', 'list_snapshots', 'list_files', 'restore', 'delete_snapshots', 'clean'):
         ctx.fp('repository.Repository.' + meth, ctx.find_func(tree, 'Repository', meth))
 
-    # EMPTY_TABLE_VALUE
+    # EMPTY_TABLE_VALUE (a public class attribute)
     empty = None
-    for n in ast.walk(tree):
-        if isinstance(n, ast.Assign) and len(n.targets) == 1 and ctx.unparse(n.targets[0]) == 'EMPTY_TABLE_VALUE' and isinstance(n.value, ast.Constant):
-            empty = n.value.value
-    ctx.emit(f'def emptyTableValue : String := {("%r" % empty).replace(chr(39), chr(34)) if isinstance(empty, str) else chr(34) + chr(34)}')
+    R = an.mods['repository'].classes.get('Repository')
+    v = R.consts.get('EMPTY_TABLE_VALUE') if R else None
+    if isinstance(v, ast.Constant) and isinstance(v.value, str) and '"' not in v.value and '\\' not in v.value:
+        empty = v.value
+    ctx.emit(f'def emptyTableValue : String := "{empty if empty is not None else ""}"')
 
-    # _instantiate_key: userkey = KDF(password, params=key['kdf_params']);  private = decrypt(key['private'], userkey)
-    f = ctx.find_func(tree, 'Repository', '_instantiate_key')
-    texts = [_norm(ctx, n) for n in ast.walk(f)] if f is not None else []
-    ok = any(t.startswith('userkey=') and t.endswith(".derivepassword,params=key['kdf_params']") for t in texts) and \
-        any("cipher.decryptkey['private'],userkey" in t for t in texts)
-    flag('privateSealedUnderUserKey', ok, '_instantiate_key: derive(password, params=key[kdf_params]) / cipher.decrypt(key[private], userkey) not found')
+    # unlock: userkey = KDF(key.kdf).derive(password, params=key.kdf_params); private = DESER(DEC(key.private, userkey)) when still sealed
+    kf = run(rf.key_files, dict(private_sealed=False))
+    flag('privateSealedUnderUserKey', kf.get('private_sealed'),
+         kf.get('why') or 'unlock: userkey = KDF(password, key.kdf_params) / private = decrypt(key.private, userkey) not found')
 
-    # _load_snapshots: foreign tag ⇒ skip
-    f = ctx.find_func(tree, 'Repository', '_load_snapshots')
-    ok = False
-    if f is not None:
-        for n in ast.walk(f):
-            if isinstance(n, ast.If) and _norm(ctx, n.test) == 'self.props.encryptedandself.props.macdigest!=bytes.fromhextag' and \
-                    any(isinstance(b, ast.Return) and b.value is None for b in n.body):
-                ok = True
-    flag('loadSkipsForeignTag', ok, '_load_snapshots: `if props.encrypted and props.mac(digest) != bytes.fromhex(tag): return` not found')
+    # loading snapshots: foreign tag ⇒ skipped before anything is fetched
+    sl = run(rf.snapshot_loader, dict(tag_checked=False))
+    flag('loadSkipsForeignTag', sl.get('tag_checked'),
+         sl.get('why') or 'snapshot loader: MAC(FROMHEX(name)) == FROMHEX(tag) does not precede the download in an encrypted repository')
 
     # clean: tag validated before a chunk is scheduled for deletion
-    f = ctx.find_func(tree, 'Repository', 'clean')
-    ok = False
-    if f is not None:
-        for n in ast.walk(f):
-            if isinstance(n, ast.If) and _norm(ctx, n.test) == 'self.props.encrypted':
-                for m in ast.walk(n):
-                    if isinstance(m, ast.If) and _norm(ctx, m.test) == 'self.props.macbytes.fromhexname!=bytes.fromhextag' and \
-                            any(isinstance(b, ast.Continue) for b in m.body):
-                        ok = True
-    flag('cleanValidatesTag', ok, 'clean: `if props.encrypted: … if props.mac(bytes.fromhex(name)) != bytes.fromhex(tag): continue` not found')
+    cv = run(rf.clean_validates_tag, dict(ok=False))
+    flag('cleanValidatesTag', cv.get('ok'), cv.get('why') or 'clean: tag check before scheduling a listed chunk for deletion not found')
 
-    # delete_snapshots: unreadable ⇒ raise, unknown ⇒ raise, both before the first _delete
-    f = ctx.find_func(tree, 'Repository', 'delete_snapshots')
-    ok = False
-    if f is not None:
-        raises = [n.lineno for n in ast.walk(f) if isinstance(n, ast.Raise)]
-        first_delete = min([n.lineno for n in ast.walk(f) if isinstance(n, ast.Call) and ctx.unparse(n.func) in ('asyncio.gather',)] or [0])
-        unread = any(isinstance(n, ast.If) and _norm(ctx, n.test) in ("snapshot_data:=body['data']isNone", "body['data']isNone")
-                     and any(isinstance(b, ast.Raise) for b in n.body) for n in ast.walk(f))
-        unknown = any(isinstance(n, ast.If) and _norm(ctx, n.test) == 'remaining_names' and any(isinstance(b, ast.Raise) for b in n.body) for n in ast.walk(f))
-        ok = unread and unknown and len(raises) >= 2 and first_delete > max(raises)
-    flag('deleteRefusesBeforeMutation', ok, 'delete_snapshots: the two refusals (different key / not available) before the first gather(_delete…) not found')
+    # delete_snapshots: unreadable ⇒ raise, unknown ⇒ raise, both before the first deletion
+    dr = run(rf.delete_refuses_before_mutation, dict(ok=False))
+    flag('deleteRefusesBeforeMutation', dr.get('ok'), dr.get('why') or 'delete_snapshots: refusals before the first deletion not found')
 
-    # restore: newest first + first occurrence wins + file filter per path
-    f = ctx.find_func(tree, 'Repository', 'restore')
-    ok = False
-    if f is not None:
-        texts = [_norm(ctx, n) for n in ast.walk(f) if isinstance(n, (ast.Expr, ast.If, ast.Assign))]
-        sort_ok = any(t == "snapshots.sortkey=lambdax:x['data']['utc_timestamp'],reverse=True" for t in texts)
-        first_ok = any(isinstance(n, ast.If) and _norm(ctx, n.test) == "file_path:=file_data['path']infiles_digests" and
-                       any(isinstance(b, ast.Continue) for b in n.body) for n in ast.walk(f))
-        filt_ok = any(isinstance(n, ast.If) and _norm(ctx, n.test) == 'file_reisnotNoneandfile_re.searchfile_pathisNone' and
-                      any(isinstance(b, ast.Continue) for b in n.body) for n in ast.walk(f))
-        ok = sort_ok and first_ok and filt_ok
-    flag('restoreSelectsNewestFirstOccurrence', ok, 'restore: sort by utc_timestamp descending / first occurrence of a path / file filter shape not found')
-
-    # listings: sorted by timestamp descending
-    ok = True
-    for meth, want in (('list_snapshots', "snapshots.sortkey=lambdax:x[0]or'',reverse=True"), ('list_files', 'files.sortkey=lambdax:x[0],reverse=True')):
-        f = ctx.find_func(tree, 'Repository', meth)
-        ok = ok and f is not None and any(_norm(ctx, n) == want for n in ast.walk(f) if isinstance(n, ast.Expr))
-    flag('listingsSortNewestFirst', ok, 'list_snapshots / list_files: sort(..., reverse=True) on the timestamp not found')
+    # restore: newest first + first occurrence wins + file filter per path; listings: sorted by timestamp descending
+    ss = run(rf.selection_shapes, dict(restore_ok=False, listings_ok=False))
+    flag('restoreSelectsNewestFirstOccurrence', ss.get('restore_ok'),
+         ss.get('why') or 'restore: sort by utc_timestamp descending / first occurrence of a path / file filter shape not found')
+    flag('listingsSortNewestFirst', ss.get('listings_ok'), 'list_snapshots / list_files: sort(..., reverse=True) on the timestamp not found')
